@@ -407,6 +407,12 @@ def return_value_rule(ctx):
             s = ws[0][2]
             ok = "rv" in s and any(flows_into(vr, ev[0][0], o) for o in ([s["rv"]["use"]] if "use" in s["rv"] else s["rv"].get("ops", [])))
         rep.ob("C05.R5", "return-stores-evaluated-value", ok, "" if ok else "visit_return does not store Some(value of the expression)", vr.loc(), how="return_val = Some(visit_expression(r.value))")
+        if len(ev) == 1:
+            # by value, for every kind of returned expression: no non-error path reaches the end of visit_return without evaluating
+            # the expression through the reading visitor (which clones) -- no special route that takes the value out of a variable
+            ok2, why2 = common.exactly_once_on_normal_paths(vr, [ev[0][0]])
+            rep.ob("C05.R5", "return-evaluates-on-every-path", ok2, "" if ok2 else "visit_return: %s -- some expressions are returned by another route than evaluating them" % why2, vr.loc(),
+                   how="every non-error path passes visit_expression(r.value) exactly once")
     rv = inherent_methods(F, EXEC).get("return_val")
     if rv is None:
         rep.fail("C05.R5", "anchor::return_val", "ExecStmt::return_val not found")
@@ -448,6 +454,31 @@ def c05(ctx):
     pronoun_rule(ctx, env)
     call_protocol_rule(ctx, env)
     return_value_rule(ctx)
+    who_may_mutate_rule(ctx, env)
+
+
+def who_may_mutate_rule(ctx, env):
+    """C05.R7: a variable's cell is handed out mutably only to the write visitor"""
+    F, rep = ctx.F, ctx.rep
+    rep.rule("C05.R7", "who-may-mutate: the Environment methods that hand out `&mut Val` to a variable's cell (every public inherent method of "
+             "Environment returning a mutable value reference: lookup_var_mut, last_access_mut, create_var) are called only by the write "
+             "visitor (methods and helpers of exec::write_val) and by Environment itself -- reading, calling, returning and printing never "
+             "obtain a cell they could change, so they cannot alter a variable of an enclosing scope")
+    handing = []
+    for name, m in sorted(env.items()):
+        ret = F.ty(m.d["ret"]).s
+        if "&mut exec::val::Val" in ret or "&mut Val" in ret:
+            handing.append(m.path)
+    rep.floor("C05.R7", len(handing), 3, "Environment methods returning &mut Val")
+    n = 0
+    for fn, bi, t in common.who_calls(F, lambda c: c.get("def") in handing):
+        top = common.top_fn(F, fn)
+        n += 1
+        ok = top.file == "src/exec/write_val.rs" or top.path.startswith(ENV + "::")
+        rep.ob("C05.R7", "caller::%s::%s" % (top.path, t["callee"].get("name")), ok,
+               "" if ok else "%s obtains a mutable reference to a variable's cell through %s: only the write visitor may change variables" % (top.path, t["callee"].get("name")),
+               fn.loc(t["line"]), how="caller is the write visitor or Environment")
+    rep.floor("C05.R7", n, 3, "call sites handing out a variable cell")
 
 
 
